@@ -687,3 +687,193 @@ func rulePairDelimiters(c *Ctx, r *R) {
 }
 
 var pairDelimitersReviewed = map[string]string{}
+
+// ---- LEX-peek ------------------------------------------------------------------------------------------------------------
+
+func init() {
+	register(&Rule{ID: "LEX-peek", Props: []string{"C03", "C04"}, Min: 1,
+		Doc: "T (sibling agreement): the scanner's read() consumes the byte at p.offset and peek() must look at that same byte - the character the next read() will return. Both index the source string; the index expressions must be the same load of the offset field (no added constant), for every scanner of package parser that has a peek(). An offset that is one too far makes `CR x LF` (a lone carriage return, one character, a line feed) lose the character: `5 +<CR>1<LF>+ 2` evaluates to 7",
+		Run: ruleLexPeek})
+}
+
+func ruleLexPeek(c *Ctx, r *R) {
+	n := 0
+	for _, fn := range c.AllSrcFuncs("parser") {
+		if fn.Name() != "peek" || fn.Signature.Recv() == nil {
+			continue
+		}
+		// the sibling read() of the same receiver type
+		var read *ssa.Function
+		for _, g := range c.AllSrcFuncs("parser") {
+			if g.Name() == "read" && g.Signature.Recv() != nil && types.Identical(g.Signature.Recv().Type(), fn.Signature.Recv().Type()) {
+				read = g
+			}
+		}
+		key := ssaFuncName(fn)
+		if read == nil {
+			r.undecided("unresolved:"+key, c.Pos(fn.Pos()), "UNRESOLVED: no read() sibling of "+key)
+			continue
+		}
+		idxOf := func(f *ssa.Function) (string, bool) {
+			for _, b := range f.Blocks {
+				for _, ins := range b.Instrs {
+					var idx ssa.Value
+					switch x := ins.(type) {
+					case *ssa.Index:
+						idx = x.Index
+					case *ssa.Lookup:
+						idx = x.Index
+					}
+					if idx == nil {
+						continue
+					}
+					if ld, ok := idx.(*ssa.UnOp); ok && ld.Op == token.MUL {
+						if _, f := fieldOfAddr(ld.X); f != nil {
+							return "p." + f.Name(), true
+						}
+					}
+					if bo, ok := idx.(*ssa.BinOp); ok {
+						return "p.offset " + bo.Op.String() + " " + bo.Y.Name(), true
+					}
+					return idx.Name(), true
+				}
+			}
+			return "", false
+		}
+		pi, ok1 := idxOf(fn)
+		ri, ok2 := idxOf(read)
+		if !ok1 || !ok2 {
+			r.undecided("unresolved:index:"+key, c.Pos(fn.Pos()), "UNRESOLVED: no string index in peek / read")
+			continue
+		}
+		n++
+		r.check(pi == ri, key, c.Pos(fn.Pos()), "peek and read index the source at "+ri,
+			fmt.Sprintf("%s looks at str[%s] while read() consumes str[%s]: peek does not return the character the next read() returns", key, pi, ri))
+	}
+	if n == 0 {
+		r.undecided("unresolved:peek", "-", "UNRESOLVED: no peek() method in package parser")
+	}
+}
+
+// ---- LEX-comment-newline -------------------------------------------------------------------------------------------------
+
+func init() {
+	register(&Rule{ID: "LEX-comment-newline", Props: []string{"C03", "C04"}, Min: 2,
+		Doc: "G: ES5 7.4 - a MultiLineComment that contains a line terminator is a LineTerminator for the syntactic grammar, so automatic semicolon insertion and the restricted productions (`return /*\\n*/ 1`) see it. Every scanner function that consumes a multi-line comment (it compares consecutive characters with '*' and '/') tests the characters it consumes with isLineTerminator and reports the result to its caller, and scan - their caller - stores implicitSemicolon = true on a path that depends on that result",
+		Run: ruleLexCommentNewline})
+}
+
+func ruleLexCommentNewline(c *Ctx, r *R) {
+	isLT := func(f *ssa.Function) bool { return f != nil && f.Name() == "isLineTerminator" }
+	var scanners []*ssa.Function
+	for _, fn := range c.AllSrcFuncs("parser") {
+		if fn.Signature.Recv() == nil || !typeIs(fn.Signature.Recv().Type(), ottoPath+"/parser", "parser") {
+			continue
+		}
+		// consumes a multi-line comment: compares a character with '*' and the next with '/' in a loop, calling read()
+		star, slash, reads := false, false, false
+		for _, b := range fn.Blocks {
+			for _, ins := range b.Instrs {
+				if bo, ok := ins.(*ssa.BinOp); ok && bo.Op == token.EQL {
+					if k, ok := constInt(bo.Y); ok {
+						if k == '*' {
+							star = true
+						}
+						if k == '/' {
+							slash = true
+						}
+					}
+				}
+				if call, ok := ins.(*ssa.Call); ok && call.Call.StaticCallee() != nil && call.Call.StaticCallee().Name() == "read" {
+					reads = true
+				}
+			}
+		}
+		if star && slash && reads && len(fn.Blocks) > 3 && fn.Name() != "scan" {
+			scanners = append(scanners, fn)
+		}
+	}
+	if len(scanners) == 0 {
+		r.undecided("unresolved:comment-scanners", "-", "UNRESOLVED: no multi-line comment scanner found in package parser")
+		return
+	}
+	for _, fn := range scanners {
+		tests := false
+		for _, b := range fn.Blocks {
+			for _, ins := range b.Instrs {
+				if call, ok := ins.(*ssa.Call); ok && isLT(call.Call.StaticCallee()) {
+					tests = true
+				}
+			}
+		}
+		reports := false
+		res := fn.Signature.Results()
+		for i := 0; i < res.Len(); i++ {
+			if b, ok := res.At(i).Type().Underlying().(*types.Basic); ok && b.Kind() == types.Bool {
+				reports = true
+			}
+		}
+		r.check(tests && reports, "scanner:"+fn.Name(), c.Pos(fn.Pos()), "tests the consumed characters with isLineTerminator and returns the answer",
+			fmt.Sprintf("%s consumes a multi-line comment without noticing the line terminators in it (or without telling its caller): `return /*\\n*/ 1` returns 1, `var a = 1 /*\\n*/ var b` is a syntax error", fn.Name()))
+	}
+	// scan: a store of implicitSemicolon = true that is control-dependent on the result of a comment scanner
+	var scan *ssa.Function
+	for _, fn := range c.AllSrcFuncs("parser") {
+		if fn.Name() == "scan" && fn.Signature.Recv() != nil && typeIs(fn.Signature.Recv().Type(), ottoPath+"/parser", "parser") {
+			scan = fn
+		}
+	}
+	if scan == nil {
+		r.undecided("unresolved:scan", "-", "UNRESOLVED: (*parser).scan")
+		return
+	}
+	isScannerResult := func(v ssa.Value, d int) bool { return false }
+	var dep func(v ssa.Value, d int) bool
+	dep = func(v ssa.Value, d int) bool {
+		if d > 6 {
+			return false
+		}
+		switch x := v.(type) {
+		case *ssa.Call:
+			for _, s := range scanners {
+				if x.Call.StaticCallee() == s {
+					return true
+				}
+			}
+		case *ssa.Extract:
+			return dep(x.Tuple, d+1)
+		case *ssa.Phi:
+			for _, e := range x.Edges {
+				if dep(e, d+1) {
+					return true
+				}
+			}
+		case *ssa.BinOp:
+			return dep(x.X, d+1) || dep(x.Y, d+1)
+		case *ssa.UnOp:
+			return dep(x.X, d+1)
+		}
+		return false
+	}
+	_ = isScannerResult
+	ok := false
+	for _, b := range scan.Blocks {
+		for _, ins := range b.Instrs {
+			st, isStore := ins.(*ssa.Store)
+			if !isStore || !isFieldAddr(st.Addr, "parser", "implicitSemicolon") {
+				continue
+			}
+			if k, isK := st.Val.(*ssa.Const); !isK || k.Value == nil || k.Value.ExactString() != "true" {
+				continue
+			}
+			// some dominating branch tests a value derived from a comment scanner's result
+			for d := b; d != nil; d = d.Idom() {
+				if iff, isIf := d.Instrs[len(d.Instrs)-1].(*ssa.If); isIf && d != b && dep(iff.Cond, 0) {
+					ok = true
+				}
+			}
+		}
+	}
+	r.check(ok, "scan:implicit-semicolon", c.Pos(scan.Pos()), "scan raises implicitSemicolon when a comment scanner reports a line terminator",
+		"scan never stores implicitSemicolon = true under a test of what the comment scanners report: a line terminator inside a multi-line comment is invisible to automatic semicolon insertion (ES5 7.4)")
+}
